@@ -245,6 +245,9 @@ class XmlGenerator:
     def xml_from_tree(self, tree):
         """ Transform an entire parse tree to XML.
         """
+        # attachment numbering shares the id generator's counters; start every tree from a clean slate,
+        # otherwise a previous conversion that failed midway leaks its attachment counters into this one
+        self.ids.reset()
         return etree.fromstring(etree.tostring(self.item_to_xml(tree), encoding='utf-8'))
 
     def item_to_xml(self, item):
